@@ -126,6 +126,13 @@ class Oracle:
             for (pn, pt), a in zip(u['params'][ns:], args[ns:]):
                 if pt in self.meta['struct_attrs']:
                     loc[py['pyparams'][ns:][[x[0] for x in u['params'][ns:]].index(pn)]] = self.make_struct(pt, a)
+            for pn, val in list(loc.items()):
+                if '_' in pn:
+                    a, b = pn.split('_', 1)
+                    if f"{a}['{b}']" in py['pyexpr']:
+                        loc.setdefault(a, {})
+                        if isinstance(loc[a], dict):
+                            loc[a][b] = val
             v = eval(py['pyexpr'], g, loc)
             return self.show(ret, v, cap)
         raise RuntimeError(kind)
